@@ -124,6 +124,7 @@ fn one_request_all_rolls() {
         assert!(o.draws == 1, "[C19.draw_count] one draw decides an injected error");
     } else {
         assert!(o.inner_calls == 1 && mon().last_req == req, "[C19.pass_forwards_once] a request that is not failed reaches the wrapped service exactly once, unchanged");
+        assert!(mon().unready_calls == 0, "[C20.chaos_ready_instance] the call goes to the instance on which readiness was observed");
         assert!(r == script.outcomes[0].map_err(InnerErr), "[C19.pass_result_unchanged] the inner result is returned unchanged");
         let lat_rolled = lr > 0.0;
         let idx = if error_rolled { 1 } else { 0 };
